@@ -47,6 +47,14 @@ def _cases(draw, tier):
         for a in s['operand_values'].values():
             if a['type'] == 'enumeration':
                 keys_in_use |= set(a['argument']['value_dict'])
+            for ia in (a.get('index_operands') or {}).values():
+                if ia['type'] == 'enumeration':
+                    keys_in_use |= set(ia['argument']['value_dict'])
+    decorated = set()
+    for s_ in cfg['operand_sets'].values():
+        for a in s_['operand_values'].values():
+            if a['type'] == 'register' and a.get('decorator'):
+                decorated.add((a['register'], a['decorator']['type'], bool(a['decorator'].get('is_prefix', False))))
     mn = draw(st.sampled_from(sorted(isa.instructions)))
     variants = isa.variants(mn)
     vi = draw(st.integers(0, len(variants) - 1))
@@ -61,7 +69,11 @@ def _cases(draw, tier):
         else:
             for sname in oc['operand_sets']['list']:
                 ov = cfg['operand_sets'][sname]['operand_values']
-                aid = draw(st.sampled_from(sorted(ov)))
+                # prefer a register that the ISA also decorates on the other side, where there is one
+                both = [a for a in sorted(ov) if ov[a]['type'] == 'register' and ov[a].get('decorator') and
+                        (ov[a]['register'], ov[a]['decorator']['type'], not ov[a]['decorator'].get('is_prefix', False))
+                        in decorated]
+                aid = draw(st.sampled_from(both if both and draw(st.booleans()) else sorted(ov)))
                 alts.append((aid, ov[aid]))
     glo, ghi = isa.zones['GLOBAL']
     address = draw(st.integers(glo + 64, ghi - 300))
@@ -86,10 +98,15 @@ def _cases(draw, tier):
     elif perturb == 'add':
         ops.insert(draw(st.integers(0, len(ops))), {'k': 'expr', 'e': ['num', draw(st.integers(0, 9)), 'dec']})
     elif perturb == 'keylabel' and ops and keys_in_use:
-        idxs = [i for i, o in enumerate(ops) if o['k'] in ('expr', 'enum')]
+        idxs = [i for i, o in enumerate(ops) if o['k'] in ('expr', 'enum') or
+                (o['k'] in ('idxreg', 'indidx') and o['idx']['k'] in ('expr', 'enum'))]
         if idxs:
             i = draw(st.sampled_from(idxs))
-            ops[i] = {'k': 'expr', 'e': ['lab', draw(st.sampled_from(sorted(keys_in_use)))]}
+            key_as_label = {'k': 'expr', 'e': ['lab', draw(st.sampled_from(sorted(keys_in_use)))]}
+            if ops[i]['k'] in ('idxreg', 'indidx'):
+                ops[i] = dict(ops[i], idx=key_as_label)
+            else:
+                ops[i] = key_as_label
     # an earlier statement with the same mnemonic, generated for another variant: selection is per statement
     pre_ops = None
     if len(variants) > 1 and draw(st.booleans()):
@@ -161,8 +178,21 @@ def ambiguity(isa, case):
     for o in case['ops']:
         if o['k'] == 'expr' and o['e'][0] == 'lab' and o['e'][1] in case['keyconsts']:
             kinds.add('enum-key-is-also-a-label')
+        if o['k'] in ('idxreg', 'indidx') and o['idx']['k'] in ('expr', 'enum'):
+            ix = o['idx']
+            name = ix['e'][1] if ix['k'] == 'expr' and ix['e'][0] == 'lab' else ix.get('key')
+            if name in case['keyconsts']:
+                kinds.add('index-enum-key-is-also-a-label')
     if case['perturb'] == 'reg':
         kinds.add('register-offered')
+    decorated = set()
+    for s_ in case['isa']['operand_sets'].values():
+        for a in s_['operand_values'].values():
+            if a['type'] == 'register' and a.get('decorator'):
+                decorated.add((a['register'].lower(), a['decorator']['type'], bool(a['decorator'].get('is_prefix', False))))
+    for o in case['ops']:
+        if o['k'] == 'reg' and o.get('deco') and (o['r'].lower(), o['deco'][0], not o['deco'][1]) in decorated:
+            kinds.add('register-decorated-on-either-side-in-the-isa')
     return kinds
 
 
